@@ -14,6 +14,7 @@ import gens
 
 
 def _run(runner, prop, tier, seed, t0, rule, level="model_checking", jobs=12, extra_cov=None, chunk_events=1500):
+    gens.known_witnesses(runner, prop)
     sessions = [s.records for s in runner.sessions]
     res = tv.validate("%s_%s" % (prop, tier), sessions, focus=prop, jobs=jobs, chunk_events=chunk_events)
     return finish(prop, tier, seed, runner, res, t0, level, rule, extra_cov=extra_cov)
@@ -65,3 +66,137 @@ def check_C20(runner, tier, seed, t0):
                 "One or more frames for every outcome action of the specification (all layers and drop reasons) under both "
                 "log formats; the logger lines printed between two driver answers are tokenised and compared with the "
                 "recv/terminal balance, nesting, fate and field values the specification derives from the frame.")
+
+
+def check_C07(runner, tier, seed, t0):
+    gens.gen_tcp_gate(runner, tier, seed)
+    return _run(runner, "C07", tier, seed, t0,
+                "Seeded interleavings of per-flow scripts on 12 flows per round (both IP versions, initial sequence numbers "
+                "straddling 2^32): data before any SYN, SYN, data with acknowledgement in {0, cookie, cookie+2, cookie+2^16, "
+                "cookie+1 xor 2^31, random}, bare ACK / RST / FIN|ACK / RST|ACK, the valid first segment (empty, 1 byte, partial, "
+                "complete; extra flags FIN/URG/SYN/RST/ECE/NS), retransmitted SYN, continuation segments, noise traffic. "
+                "Every step is compared with the reference connection model of Stack.tla.")
+
+
+def check_C08(runner, tier, seed, t0):
+    gens.gen_interference(runner, tier, seed)
+    return _run(runner, "C08", tier, seed, t0,
+                "2..16 concurrent flows sending partial HTTP / ONC-RPC requests cut at seeded positions, interleaved in seeded "
+                "orders with ARP, ICMP, UDP (incl. the same 4-tuple over UDP) and non-data TCP; the specification keys all "
+                "connection state by the 4-tuple, so any cross-flow influence in the code is a non-conforming step.",
+                )
+
+
+def check_C09(runner, tier, seed, t0):
+    gens.gen_flood(runner, tier, seed)
+    return _run(runner, "C09", tier, seed, t0,
+                "Floods of SYNs with all flag combinations from distinct tuples, data segments with wrong acknowledgements, "
+                "FIN/RST/ACK, UDP of every protocol, ICMP, ARP, interleaved with genuine validations (repeated per flow); "
+                "the real table size reported after every frame must equal the number of validated flows of the model.")
+
+
+def check_C11(runner, tier, seed, t0):
+    gens.gen_segmentation(runner, tier, seed)
+    return _run(runner, "C11", tier, seed, t0,
+                "HTTP and ONC-RPC requests sent unsplit, with every 1-cut, with 2-cuts (all in the thorough tier), byte by "
+                "byte and with seeded k-cuts, flows interleaved round-robin; the specification judges the accumulated stream, "
+                "so the verdict for a segment cannot depend on where the cuts are.")
+
+
+def check_C13(runner, tier, seed, t0):
+    gens.gen_http(runner, tier, seed)
+    return _run(runner, "C13", tier, seed, t0,
+                "Requests generated from the request grammar (all nine methods, targets incl. non-UTF-8 bytes, versions, 0..5 "
+                "headers, CRLF and bare LF) and every single-token fault of each (delete, duplicate, substitute), over UDP and as "
+                "first TCP segment on random ports, a sample byte by byte; tri-state classification by the Strict/Loose automata "
+                "of Http.tla, response relation Http401Fails.")
+
+
+def check_C14(runner, tier, seed, t0):
+    gens.gen_dns(runner, tier, seed)
+    return _run(runner, "C14", tier, seed, t0,
+                "Queries over ids, flag words (every bit alone, random words), 0..4 questions, label layouts up to the 255-byte "
+                "limit, destination addresses; faults: other types/classes, truncation at every byte, extra sections, lying "
+                "counts, trailing bytes; relation DnsAnswerFails (echo, one IN/A answer per question with the queried address, "
+                "counts match, parses completely).")
+
+
+def check_C15(runner, tier, seed, t0):
+    gens.gen_stun(runner, tier, seed)
+    return _run(runner, "C15", tier, seed, t0,
+                "Binding requests with and without magic cookie, 0..4 attributes of known/unknown types, CHANGE-REQUEST flag "
+                "combinations, source/destination ports incl. 0 and 65535, both IP versions, random source addresses; other "
+                "classes and methods; malformed TLVs and lying lengths (unspecified for the answer, counted for the abort check).")
+
+
+def check_C16(runner, tier, seed, t0):
+    gens.gen_rpc(runner, tier, seed)
+    return _run(runner, "C16", tier, seed, t0,
+                "Calls over programs of the portmapper range, versions {0..5, 104316, 2^32-1}, procedures, credential lengths "
+                "{0,4,8,400} (and non-aligned ones, unspecified), destination addresses/ports incl. 0 and 65535, UDP and TCP, "
+                "IPv4 and IPv6; relation RpcReplyFails (xid, accepted, null verifier, XDR, record mark, precedence table, "
+                "advertised endpoint).")
+
+
+def check_C17(runner, tier, seed, t0):
+    gens.gen_smb(runner, tier, seed)
+    return _run(runner, "C17", tier, seed, t0,
+                "SMB1/SMB2 negotiate and session-setup requests with random correlation ids, flags with and without the reply "
+                "bit, dialect lists (order, count, duplicates, unknown dialects, none supported), blob lengths 1..300, all "
+                "commands, truncations; relations S1ReplyFails / S2ReplyFails.")
+
+
+def check_C18(runner, tier, seed, t0):
+    gens.gen_ssh_ghost(runner, tier, seed)
+    return _run(runner, "C18", tier, seed, t0,
+                "Identification strings over version strings, software/comment strings from an alphabet with lone CR, NUL, "
+                ">=0x80 and SP, terminators {CRLF, LF, CR, none, CR CR LF, LF CR}, trailing data; Gh0st tails of every length; "
+                "the zlib body of each Gh0st reply is inflated by the harness and the length handed to the specification.")
+
+
+def check_C12(runner, tier, seed, t0):
+    gens.gen_replies(runner, tier, seed)
+    return _run(runner, "C12", tier, seed, t0,
+                "Reply-typed messages of every protocol (ARP replies, echo replies, neighbour advertisements, SYN|ACK / RST "
+                "segments, DNS QR=1, STUN indications and responses, SMB with the reply flag, ONC-RPC replies), generated and "
+                "the responder's own outputs re-addressed to it (MAC/IP/ports swapped; over TCP re-sent on validated flows), "
+                "reflection chains followed to depth 6.")
+
+
+def check_C19(runner, tier, seed, t0):
+    gens.gen_ports(runner, tier, seed)
+    return _run(runner, "C19", tier, seed, t0,
+                "Every payload (answered and unanswered ones of all protocols) is sent under several (source port, destination "
+                "port, IP version, addresses) contexts as one group; TLC compares, within a group, answered-ness, responder and "
+                "the reply bytes after masking (AppCanon) exactly the fields the statement lists.")
+
+
+def check_C10(runner, tier, seed, t0):
+    import smack
+    prod = smack.run_product(runner.driver(0), "C10_mcsmack_%s" % tier)
+    runner.mc.append({"model": "MCSmack (compiled matcher dumped from the running binary x reference signature automaton)",
+                      "states": prod["distinct"], "transitions": prod["generated"], "matcher_states": prod["matcher_states"],
+                      "exhaustive": True, "disagreements": len(prod["mismatches"])})
+    gens.gen_identification(runner, tier, seed, prod["mismatches"])
+    mism = [{"mode": m["mode"], "witness": m["witness"].hex(), "matcher": m["matcher"], "reference": m["reference"]} for m in prod["mismatches"]]
+    return _run(runner, "C10", tier, seed, t0,
+                "TLC explores the complete product of the compiled matcher (dumped from the running binary) with the reference "
+                "signature automaton over joint byte classes, in stream and datagram mode: complete for all byte strings of every "
+                "length.  Every matcher-level disagreement is then put to the test on the real stack (witness alone, overlaid on and "
+                "followed by valid requests of every protocol, over UDP and TCP) and clean requests of every signature are sent with "
+                "every wildcard position swept over byte values; a disagreement counts only if it changes who answers.",
+                extra_cov={"exhaustive": True, "matcher_reference_disagreements": mism[:200]})
+
+
+def check_C01(runner, tier, seed, t0):
+    gens.gen_crash(runner, tier, seed)
+    panics = sum(s.panics for s in runner.sessions)
+    rc = _run(runner, "C01", tier, seed, t0,
+              "Configuration matrix {self-IP list} x {deny list} x {no logger, console, logfmt} x {5 verbosity levels} (a covering "
+              "subset in the quick tier); per configuration: seed frames of every protocol and drop reason, their spec-structured "
+              "mutations (truncation to every length, every header / leading application 16-bit word at boundary values, every byte "
+              "at 0 / 0xff / top bit flipped, type bytes swept 0..255, random splices, extension to the 4096-byte buffer), and "
+              "histories: mutated continuation segments on validated flows holding partial parser state.  A frame is non-trivial "
+              "when it takes a distinct outcome action of the specification.",
+              level="exploration", extra_cov={"aborts_observed": panics})
+    return rc
